@@ -274,6 +274,7 @@ func runC04(c *run.Ctx) {
 	fixedCases(c, collisionCases(), oracleC04)
 	fixedCases(c, timeLocationCases(), oracleC04)
 	fixedCases(c, confusableCases(), oracleC04)
+	fixedCases(c, signedZeroCases(), oracleC04)
 	c.Note("time zone of this worker: " + time.Local.String())
 }
 
